@@ -48,6 +48,18 @@ def launch_loops(ctx: Ctx, g: Graph) -> List[Tuple[Ev, set, Optional[Ev]]]:
             if key in args:
                 per_node = True
         if not per_node:
+            # the coroutine may be chosen by a synchronous helper: follow the values that reach the spawner
+            for sev, roots in ctx.spawn_sites(g):
+                if sev.id not in region:
+                    continue
+                for unit, e, i in roots:
+                    if unit.fid not in ctx.task_roots():
+                        continue
+                    args = [sym.term(ctx.p, a, i) for a in e.args if not isinstance(a, ast.Starred)] + \
+                           [sym.term(ctx.p, k.value, i) for k in e.keywords if k.arg is not None]
+                    if key in args:
+                        per_node = True
+        if not per_node:
             continue
         wait = None
         for n in sorted(region):
@@ -82,6 +94,9 @@ def rule_launch_loop(ctx: Ctx, out: Collector) -> None:
                     if c.args:
                         for e, i in resolve_all(ctx.p, c.args[0], ev.inst):
                             spawned.add(id(e))
+            for sev, roots in ctx.spawn_sites(g):
+                if sev.id in region:
+                    spawned |= {id(e) for unit, e, i in roots}
             for m in sorted(region):
                 ev = g.evs[m]
                 if ev.kind == 'await' and not ev.info.get('wait'):
